@@ -17,6 +17,7 @@ def paths_cases(maxsegs):
     return r, cases
 
 EXTRAS = ("extra_one.log", "sub/dir/extra_two.log", ".side.log", "sub/.index", "sub/dir/x..y_-z", ".hid/f")
+STALE_EXTRAS = ("extra_one.log", "sub/.index")
 
 def run_case(case, incase, driver):
     """one-task workflow: cat {i:in} > {o:out}, plus extra files (nested, dot-leading, dotted names); returns dict(ok, where, detail)"""
@@ -39,6 +40,10 @@ def run_case(case, incase, driver):
         if case["needsdest"]:
             os.makedirs(os.path.dirname(os.path.join(cwd, outp)), exist_ok=True)
             os.makedirs(os.path.dirname(want_out), exist_ok=True)
+        # files with the names of two of the extra files exist already (left by an earlier run): the new ones replace them
+        for x in STALE_EXTRAS:
+            os.makedirs(os.path.dirname(os.path.join(cwd, x)) or cwd, exist_ok=True)
+            open(os.path.join(cwd, x), "w").write("STALE\n")
         before = set()
         for root, ds, fs_ in os.walk(W):
             for f in fs_: before.add(os.path.join(root, f))
@@ -59,7 +64,10 @@ def run_case(case, incase, driver):
                 try:
                     if open(full).read() == token: where.append(full)
                 except Exception: pass
-        extras_ok = all(os.path.exists(os.path.join(cwd, x)) for x in EXTRAS)
+        def content(x):
+            try: return open(os.path.join(cwd, x)).read()
+            except OSError: return None
+        extras_ok = all(content(x) == "E%d\n" % (k + 1) for k, x in enumerate(EXTRAS))
         leftovers = [d for d in os.listdir(cwd) if d.startswith("_scipipe_tmp")]
         return dict(ok=ok, want=want_out, where=where, extras_ok=extras_ok, leftovers=leftovers, rc=p.returncode,
                     err=(p.stderr or "")[-300:], rel=lambda x: os.path.relpath(x, W))
